@@ -672,7 +672,7 @@ func runC18(c *gen.Ctx) error {
 		c.Do("rt", c18HsIn{hs})
 	}
 	e.Add("headers-exhaustive-lists", len(lists))
-	nRand := 4000
+	nRand := 12000
 	if th {
 		nRand = 120000
 	}
@@ -727,7 +727,7 @@ func runC18(c *gen.Ctx) error {
 			}
 		}
 	}
-	nErr := 3000
+	nErr := 10000
 	if th {
 		nErr = 100000
 	}
@@ -756,7 +756,7 @@ func runC18(c *gen.Ctx) error {
 			}
 		}
 	}
-	nPct := 2000
+	nPct := 8000
 	if th {
 		nPct = 60000
 	}
@@ -779,7 +779,7 @@ func runC18(c *gen.Ctx) error {
 	// ---- strict codecs on random conformance messages of every message type
 	types := c18MessageTypes()
 	e.Add("codec-message-types", len(types))
-	perType := 3
+	perType := 8
 	if th {
 		perType = 60
 	}
